@@ -174,7 +174,7 @@ func c09Chain(d int, raise string, h int, hc string, handlerReturns bool, inLoop
 }
 
 func checkC09(c *Ctx) {
-	c.rule = "programs: (a) fixed families: call chains of depth 0..4 whose innermost body raises one of 16 raise kinds (a constructor called with too few arguments / whose body raises / faults, 抛出 of 异常 / custom type, ÷0, index, key, undefined name, type error, failing 转换数值, missing method, arity, malformed % template, % argument count, number-like invalid identifier - the last three only judged where no handler of 异常 is on the way) optionally inside a loop, with a matching or non-matching handler (preceded by a wrong-class handler) at every level 0..depth, with/without 输出 in the handler, function or type-method callers; marks before/after every call, follow-up probes of locals, parameters, 其 and a further call after the handler ran; variants probing callee locals that must be undefined; nested families where the handler itself raises and a handler further out takes over; (b) random programs with 抛出, runtime faults, handlers on methods and program; (c) uncaught custom exceptions whose 内容 is a text, integer, boolean, list, dictionary or decimal, raised directly, through one / two methods or from a handler: the program ends with that value as its message (written down for texts and integers, non-empty otherwise). Oracle: reference evaluator; plus quiescent invariants after every successful run: call stack empty and every module scope at depth 0 (hooks H3/H4). distinct_nontrivial = distinct (family parameters / feature set, outcome kind)"
+	c.rule = "programs: (a) fixed families: call chains of depth 0..4 whose innermost body raises one of 16 raise kinds (a constructor called with too few arguments / whose body raises / faults, 抛出 of 异常 / custom type, ÷0, index, key, undefined name, type error, failing 转换数值, missing method, arity, malformed % template, % argument count, number-like invalid identifier - the last three only judged where no handler of 异常 is on the way) optionally inside a loop, with a matching or non-matching handler (preceded by a wrong-class handler) at every level 0..depth, with/without 输出 in the handler, function or type-method callers; marks before/after every call, follow-up probes of locals, parameters, 其 and a further call after the handler ran; variants probing callee locals that must be undefined; nested families where the handler itself raises and a handler further out takes over; (b) random programs with 抛出, runtime faults, handlers on methods and program; (c) uncaught custom exceptions whose 内容 is a text, integer, boolean, list, dictionary or decimal, raised directly, through one / two methods or from a handler: the program ends with that value as its message (written down for texts and integers, non-empty otherwise); (d) endurance: 90000 exceptions handled one after the other (a fault inside a nested expression of a method, a throw that crosses an argument and an index, a fault in a type method, a handler in a callee of the looping method) must leave the program running and yield the value written down. Oracle: reference evaluator; plus quiescent invariants after every successful run: call stack empty and every module scope at depth 0 (hooks H3/H4). distinct_nontrivial = distinct (family parameters / feature set, outcome kind)"
 	c.assumptions = []string{"message text of runtime faults is not compared (U7)", "handlers only use 其, parameters and literals (U1)"}
 	rng := c.Rand("c09")
 	var progs []*zr.Program
@@ -244,6 +244,7 @@ func checkC09(c *Ctx) {
 	}
 	c09Consistency(c)
 	c09Messages(c)
+	c09Endurance(c)
 	var inputs []map[string]Val
 	c.runRefCases("exc", progs, inputs, shapes, nil, func(i int, src string, ref zr.Result, resp *Resp) {
 		quiescent(c, "exc", shapes[i], src, resp)
@@ -326,6 +327,51 @@ func c09Messages(c *Ctx) {
 		if why != "" {
 			c.Violation("message:"+m.name+":"+w, fmt.Sprintf("uncaught custom exception with 内容 = %s (%s): %s\nreport:\n%s\nprogram:\n%s", m.content, w, why, resp.Err.Text, srcs[i]), map[string]interface{}{"req": req})
 		}
+	})
+}
+
+// c09Endurance: "execution continues exactly as if the protected body had returned normally" also
+// after the hundred-thousandth handled exception: whatever the interpreter counts or keeps per
+// exception (nesting depths, frames, snapshots) must be given back, or a long-running program runs
+// into one of the interpreter's own limits. Hand-written programs, expected value written down
+func c09Endurance(c *Ctx) {
+	type ec struct{ name, src, want string }
+	n := 90000
+	loop := func(body string) string {
+		return fmt.Sprintf("令和 = 0\n令次 = 0\n每当 次 < %d：\n%s\t次 = 次 + 1\n输出 和\n", n, body)
+	}
+	cases := []ec{
+		{"fault-in-nested-expression", "如何试？\n\t输入甲、乙\n\t输出 {甲 / 乙 + 1} * 2\n\n\t拦截异常：\n\t\t输出 -1\n" + loop("\t和 = 和 + （试：1、0）\n"), fmt.Sprintf("num(%d)", -n)},
+		{"throw-through-argument", "如何炸？\n\t抛出异常：“x”！\n如何试？\n\t输出 【1，{2 + （炸）}】#1\n\n\t拦截异常：\n\t\t输出 1\n" + loop("\t和 = 和 + （试）\n"), fmt.Sprintf("num(%d)", n)},
+		{"fault-in-type-method", "定义器：\n\t其底 = 0\n\t如何除？\n\t\t输入数\n\t\t输出 以【数 / 其底】（首项）\n\n\t\t拦截异常：\n\t\t\t输出 2\n令物 = （新建器）\n" + loop("\t和 = 和 + 以物（除：5）\n"), fmt.Sprintf("num(%d)", 2*n)},
+		{"handled-in-the-loop-owner", "如何试？\n\t令和 = 0\n\t令次 = 0\n\t每当 次 < " + fmt.Sprint(n) + "：\n\t\t次 = 次 + 1\n\t\t和 = 和 + （内：次）\n\t输出 和\n如何内？\n\t输入数\n\t如果 数 % 2 == 0：\n\t\t输出 {1 / 0}\n\t输出 1\n\n\t拦截异常：\n\t\t输出 0\n输出（试）\n", fmt.Sprintf("num(%d)", n/2)},
+		{"no-exception-control", "如何试？\n\t输入甲、乙\n\t输出 {甲 / 乙 + 1} * 2\n" + loop("\t和 = 和 + （试：1、1）\n"), fmt.Sprintf("num(%d)", 4*n)},
+	}
+	reqs := []Req{}
+	for _, e := range cases {
+		r := execReq(e.src)
+		r.EvalBudget = 0
+		reqs = append(reqs, r)
+	}
+	c.runBatches(reqs, 1, func(i int, req *Req, resp *Resp) {
+		c.Eval()
+		e := cases[i]
+		got := resp.Kind
+		if resp.Kind == "value" && resp.Val != nil {
+			got = resp.Val.String()
+		} else if resp.Kind == "error" && resp.Err != nil {
+			got = fmt.Sprintf("error %d (%s)", resp.Err.Code, resp.Err.Msg)
+		}
+		c.Nontrivial("endurance|" + e.name + "|" + resp.Kind)
+		c.Count("endurance_exceptions_handled", int64(n))
+		if resp.Kind == "timeout" {
+			c.Count("endurance_not_judged_watchdog", 1)
+			return
+		}
+		if got != e.want {
+			c.Violation("endurance:"+e.name, fmt.Sprintf("%s: after %d handled exceptions the program yields %s, expected %s\nprogram:\n%s", e.name, n, got, e.want, e.src), map[string]interface{}{"req": req})
+		}
+		quiescent(c, "endurance", e.name, e.src, resp)
 	})
 }
 
